@@ -34,6 +34,8 @@ struct Origin {
 
 #[derive(Clone, Debug)]
 struct Hop {
+    /// the caller attaches its own cookie / credentials for the target to the followed flow before sending it
+    adds_own: bool,
     status: u16,
     form: Form,
     /// where an absolute form points (scheme-relative uses host+port, the others ignore it)
@@ -46,6 +48,8 @@ struct Case {
     method: Method,
     start: Origin,
     hops: Vec<Hop>,
+    /// the original request also carries Expect: 100-continue
+    expect: bool,
 }
 
 fn origin_str(o: &Origin) -> String {
@@ -59,7 +63,8 @@ fn case_json(c: &Case) -> Value {
     json!({
         "method": c.method.as_str(),
         "start": format!("{}/s/t", origin_str(&c.start)),
-        "hops": c.hops.iter().map(|h| json!({"status": h.status, "form": format!("{:?}", h.form), "to": origin_str(&h.to), "same_host_policy": h.same_host_policy})).collect::<Vec<_>>(),
+        "original_has_expect": c.expect,
+        "hops": c.hops.iter().map(|h| json!({"caller_adds_own_cookie_and_credentials": h.adds_own, "status": h.status, "form": format!("{:?}", h.form), "to": origin_str(&h.to), "same_host_policy": h.same_host_policy})).collect::<Vec<_>>(),
     })
 }
 
@@ -96,6 +101,7 @@ fn method_after(m: &Method, status: u16) -> Method {
 }
 
 struct Pending {
+    adds_own: bool,
     hop: usize,
     target: Origin,
     allowed: bool,
@@ -109,8 +115,10 @@ fn check_new_head(c: &Case, p: &Pending, wire: &[u8], st: &mut Stats) -> Result<
     if hd.method != p.method.as_str() {
         return Err(format!("hop {}: new head has method {}, expected {}", i, hd.method, p.method));
     }
-    if !hd.values("cookie").is_empty() {
-        return Err(format!("hop {} -> {}: the previous request's Cookie header is present in the redirected request", i, origin_str(&p.target)));
+    // cookies the caller attached to this very flow are fine; anything of the previous request is a leak
+    let stale: Vec<String> = hd.values("cookie").iter().filter(|v| !(p.adds_own && **v == b"fresh=1")).map(|v| String::from_utf8_lossy(v).to_string()).collect();
+    if !stale.is_empty() {
+        return Err(format!("hop {} -> {}: the previous request's Cookie header is present in the redirected request: {:?}", i, origin_str(&p.target), stale));
     }
     if !hd.values("content-length").is_empty() {
         return Err(format!("hop {} -> {}: the previous request's Content-Length header is present in the redirected request", i, origin_str(&p.target)));
@@ -118,7 +126,7 @@ fn check_new_head(c: &Case, p: &Pending, wire: &[u8], st: &mut Stats) -> Result<
     if hd.values("x-keep").len() != 1 {
         return Err(format!("hop {}: ordinary header lost", i));
     }
-    let present = !hd.values("authorization").is_empty();
+    let present = hd.values("authorization").iter().any(|v| *v == b"Bearer SECRET");
     if present && !p.allowed {
         return Err(format!(
             "hop {}: Authorization sent to {} (original {}; policy {}; allowed only for the same host with the same scheme or https)",
@@ -148,6 +156,9 @@ fn run(c: &Case, st: &mut Stats) -> Result<(), String> {
         .header("x-keep", "1");
     if needs_body(&c.method) {
         b = b.header("Content-Length", "4");
+    }
+    if c.expect {
+        b = b.header("Expect", "100-continue");
     }
     let mut f = Flow::new(b.body(()).map_err(|e| e.to_string())?).map_err(|e| format!("Flow::new: {:?}", e))?;
     let mut cur = c.start.clone();
@@ -180,7 +191,7 @@ fn run(c: &Case, st: &mut Stats) -> Result<(), String> {
             Terminal::Cleanup(_) => return Err(format!("hop {}: status {} did not reach the redirect state", i, h.status)),
         };
         let policy = if h.same_host_policy { RedirectAuthHeaders::SameHost } else { RedirectAuthHeaders::Never };
-        let nf = match red.as_new_flow(policy).map_err(|e| format!("hop {}: as_new_flow: {:?}", i, e))? {
+        let mut nf = match red.as_new_flow(policy).map_err(|e| format!("hop {}: as_new_flow: {:?}", i, e))? {
             Some(nf) => nf,
             None => {
                 // 307/308 on a body method or DELETE: not followed, nothing can leak
@@ -188,6 +199,11 @@ fn run(c: &Case, st: &mut Stats) -> Result<(), String> {
                 return Ok(());
             }
         };
+        if h.adds_own {
+            nf.header("Cookie", "fresh=1").map_err(|e| format!("header(): {:?}", e))?;
+            nf.header("authorization", "Fresh").map_err(|e| format!("header(): {:?}", e))?;
+            st.class("caller_adds_own_cookie");
+        }
         let target = land(&cur, h);
         method = method_after(&method, h.status);
         if target.host != c.start.host {
@@ -199,7 +215,7 @@ fn run(c: &Case, st: &mut Stats) -> Result<(), String> {
             downgrade_same_host = true;
         }
         let allowed = h.same_host_policy && target.host == c.start.host && (target.scheme == c.start.scheme || target.scheme == "https");
-        pending = Some(Pending { hop: i, target: target.clone(), allowed, policy_same_host: h.same_host_policy, method: method.clone() });
+        pending = Some(Pending { adds_own: h.adds_own, hop: i, target: target.clone(), allowed, policy_same_host: h.same_host_policy, method: method.clone() });
         cur = target;
         f = nf;
     }
@@ -237,7 +253,7 @@ fn hop_from(idx: usize, salt: usize) -> Hop {
     let to = origin_from(idx % 24);
     let form = FORMS[(idx / 24) % 4];
     let same_host_policy = (idx / 96) % 2 == 1;
-    Hop { status: STATUSES[(idx + salt) % STATUSES.len()], form, to, same_host_policy }
+    Hop { adds_own: (idx + salt) % 3 == 0, status: STATUSES[(idx + salt) % STATUSES.len()], form, to, same_host_policy }
 }
 
 /// Exhaustive: start origin (24) x hop 1 (192) x hop 2 (none or 192).
@@ -251,7 +267,7 @@ fn exec_enum(t: &mut Tape, st: &mut Stats) -> Result<(), String> {
     if h2 > 0 {
         hops.push(hop_from(h2 - 1, s + h1));
     }
-    let c = Case { method, start: origin_from(s), hops };
+    let c = Case { method, start: origin_from(s), hops, expect: (s + h1) % 4 == 1 };
     st.describe(|| case_json(&c));
     run(&c, st)
 }
@@ -267,10 +283,10 @@ fn exec_random(t: &mut Tape, st: &mut Stats) -> Result<(), String> {
         if t.chance(40) {
             to.host = start.host;
         }
-        hops.push(Hop { status: *t.pick(&STATUSES), form: *t.pick(&FORMS), to, same_host_policy: t.chance(70) });
+        hops.push(Hop { adds_own: t.chance(30), status: *t.pick(&STATUSES), form: *t.pick(&FORMS), to, same_host_policy: t.chance(70) });
     }
     st.case_digest = t.digest();
-    let c = Case { method, start, hops };
+    let c = Case { method, start, hops, expect: t.chance(25) };
     st.describe(|| case_json(&c));
     run(&c, st)
 }
@@ -281,8 +297,9 @@ pub static DEF: PropDef = PropDef {
 8080}) x per hop (24 target origins x Location form {absolute, scheme-relative, path-absolute, path-relative} x policy {Never, \
 SameHost}), statuses {301,302,303,307,308,300,305,399} and methods {GET, POST, HEAD, PUT, DELETE, OPTIONS} rotating with the cell \
 index (889 344 chains); random chains of 3..4 hops biased to return to the original host. The original request carries \
-Authorization, two Cookie fields, Content-Length (body methods) and an ordinary header. Oracle on the head written by the flow \
-of every hop (strictly parsed): no cookie, no content-length, the ordinary header kept, and authorization present only if policy = \
+Authorization, two Cookie fields, Content-Length (body methods), an ordinary header and (one case in four) Expect: 100-continue; on \
+every third hop the caller attaches its own Cookie and Authorization to the followed flow before sending it. Oracle on the head written by the flow \
+of every hop (strictly parsed): no cookie other than the one the caller just attached, no content-length, the ordinary header kept, and the previous request's authorization present only if policy = \
 SameHost and target host = original host and (target scheme = original scheme or https); the target origin comes from the \
 generator's structure (form semantics), never from the implementation. The statement is an 'only if': dropping Authorization where it \
 would be allowed is measured, not failed. non-trivial = chain that leaves the original host and returns, or downgrades https to http \
